@@ -815,14 +815,14 @@ func (s *Sched) FreeRun() {
 type TaskInfo struct {
 	ExitSeq int
 	ExitVT  time.Duration
-	ID    int
-	Name  string
-	Lib   bool
-	State string
-	Site  string
-	Panic string
-	Stack string `json:",omitempty"`
-	Steps int
+	ID      int
+	Name    string
+	Lib     bool
+	State   string
+	Site    string
+	Panic   string
+	Stack   string `json:",omitempty"`
+	Steps   int
 }
 
 func (s *Sched) Snapshot() []TaskInfo {
